@@ -509,6 +509,25 @@ EXACT_CORPUS += [
     ("module em\n implicit none\n integer, save :: h\ncontains\n subroutine s3(foo, bar, h)\n  real foo\n  external FOO\n  external bar\n  real BAR\n  external h\n  call h()\n end subroutine s3\nend module em\n", []),
 ]
 
+EXACT_CORPUS += [
+    # several IMPORT statements with name lists in one interface body: valid, and with one name forgotten
+    ("module shp2\n implicit none\n integer, parameter :: wp = 8\n type :: point_t\n  real(wp) :: x\n end type\n type :: box_t\n  real(wp) :: w\n end type\n interface\n"
+     "  subroutine draw(p, b, s)\n   import :: point_t\n   import :: box_t\n   import :: wp\n   type(point_t), intent(in) :: p\n   type(box_t), intent(in) :: b\n"
+     "   real(wp), intent(in) :: s\n  end subroutine draw\n end interface\nend module shp2\n", []),
+    ("module shp3\n implicit none\n type :: point_t\n  real :: x\n end type\n type :: box_t\n  real :: w\n end type\n interface\n"
+     "  subroutine draw(p, b)\n   import :: box_t\n   type(point_t), intent(in) :: p\n   type(box_t), intent(in) :: b\n  end subroutine draw\n"
+     "  subroutine draw2(p, b)\n   import :: point_t\n   import :: box_t\n   type(point_t), intent(in) :: p\n   type(box_t), intent(in) :: b\n  end subroutine draw2\n"
+     " end interface\nend module shp3\n", [('Object "point_t" not imported in interface', 11)]),
+]
+
+# over-long lines: (server arguments, {line length: expected number of 'Line length exceeds' warnings on a code line of that length})
+LENGTH_CASES = [
+    (["--max_line_length", "80"], {79: 0, 80: 0, 81: 1, 100: 1, 140: 1}),
+    (["--max_line_length", "80", "--max_comment_line_length", "60"], {80: 0, 81: 1, 140: 1}),
+    (["--max_line_length", "80", "--max_comment_line_length", "100"], {80: 0, 81: 1, 90: 1, 100: 1, 101: 1, 140: 1}),
+    (["--max_line_length", "80", "--max_comment_line_length", "132"], {81: 1, 120: 1, 133: 1}),
+]
+
 KNOWN_UNREPORTED = [
     ("C07:missing-type-not-accessible-private",
      "module types_mod\n implicit none\n private\n type :: counter\n  integer :: n\n end type counter\nend module types_mod\n"
@@ -536,6 +555,23 @@ def check_corpus(ctx):
         if got != sorted(want):
             ctx.report("C07:exact-corpus", "error diagnostics differ from the expected set: got %s, expected %s" % (got[:4], sorted(want)[:4]),
                        {"kind": "counterexample", "input": {"text": text}, "implementation": diags, "oracle": sorted(want)})
+    for args, table in LENGTH_CASES:
+        lens = sorted(table)
+        lines = ["program long_lines", " implicit none", " integer :: a"]
+        first = len(lines)
+        for n in lens:
+            stmt = " a = 1"
+            lines.append(stmt + " " * (n - len(stmt) - 3) + "+ 2" if n - len(stmt) - 3 >= 1 else stmt)
+        lines.append("end program long_lines")
+        text = "\n".join(lines) + "\n"
+        diags = diagnostics_of(text, server_args=args)
+        ctx.count(("length-corpus", tuple(args)), True)
+        for k, n in enumerate(lens):
+            got = sum(1 for d in diags if d[2] == first + k and d[0].startswith("Line length exceeds"))
+            if len(lines[first + k]) == n and got != table[n]:
+                ctx.report("C07:line-length", "a code line of %d characters gets %d 'Line length exceeds' warnings with %s (expected %d)" % (n, got, " ".join(args), table[n]),
+                           {"kind": "counterexample", "input": {"text": text, "server_arguments": args, "line": first + k}, "implementation": diags, "oracle": table[n]})
+                break
     # documented defect classes that the unmodified tree does not report: (signature, text, message, line)
     for sig, text, msg, line in KNOWN_UNREPORTED:
         diags = diagnostics_of(text)
